@@ -90,7 +90,25 @@ impl<'a, 'tcx> Cx<'a, 'tcx> {
             }
             PatKind::Constant { value } => {
                 v.push(("k", J::s("Constant")));
-                v.push(("value", J::s(&format!("{}", value))));
+                let mut txt = format!("{}", value);
+                let strish = value.ty.is_str()
+                    || matches!(value.ty.kind(), ty::Ref(_, inner, _) if inner.is_str());
+                if strish {
+                    let bytes: Option<Vec<u8>> = if value.ty.is_str() {
+                        value
+                            .to_branch()
+                            .iter()
+                            .map(|ct| (*ct).try_to_value().and_then(|v| v.try_to_leaf()).map(|l| l.to_u8()))
+                            .collect()
+                    } else {
+                        value.try_to_raw_bytes(self.tcx).map(|b| b.to_vec())
+                    };
+                    if let Some(b) = bytes {
+                        txt = String::from_utf8_lossy(&b).to_string();
+                        v.push(("str", J::Bool(true)));
+                    }
+                }
+                v.push(("value", J::s(&txt)));
             }
             PatKind::Range(r) => {
                 v.push(("k", J::s("Range")));
